@@ -1,3 +1,4 @@
+import Sparrow.Proofs.PointInRect
 import Sparrow.Proofs.VisibilityLemmas
 /-
   C07 — Visibility is geometric line of sight.
@@ -85,5 +86,40 @@ theorem rotationToZ_maps (n : Vec3 ℝ) (hn : dot n n ≠ 0) (hanti : ¬ (n.x = 
 theorem rotationToZ_orthogonal (n : Vec3 ℝ) (hn : dot n n ≠ 0) (v w : Vec3 ℝ) :
     dot ((rotationToZ n).mulVec v) ((rotationToZ n).mulVec w) = dot v w :=
   Sparrow.rotationToZ_orthogonal n hn v w
+
+/-- counter-clockwise rectangle, any starting corner `s` -/
+theorem windingCount_rect_ccw (eta x0 x1 y0 y1 : ℝ) (h0 : 0 ≤ eta) (h1 : eta < 1)
+    (hx : x0 < x1) (hy : y0 < y1) (pt : Vec2 ℝ) (s : Nat) :
+    windingCount eta pt (fun i => rectCCW x0 x1 y0 y1 (s + i)) 4 ≠ 0 ↔
+      (x0 ≤ pt.x ∧ pt.x < x1 ∧ y0 - eta / 2 ≤ pt.y ∧ pt.y ≤ y1 + eta / 2) :=
+  Sparrow.windingCount_rect_ccw eta x0 x1 y0 y1 h0 h1 hx hy pt s
+
+/-- clockwise rectangle (`s + 3 i` walks the corners backwards), any starting corner -/
+theorem windingCount_rect_cw (eta x0 x1 y0 y1 : ℝ) (h0 : 0 ≤ eta) (h1 : eta < 1)
+    (hx : x0 < x1) (hy : y0 < y1) (pt : Vec2 ℝ) (s : Nat) :
+    windingCount eta pt (fun i => rectCCW x0 x1 y0 y1 (s + 3 * i)) 4 ≠ 0 ↔
+      (x0 ≤ pt.x ∧ pt.x < x1 ∧ y0 - eta / 2 ≤ pt.y ∧ pt.y ≤ y1 + eta / 2) :=
+  Sparrow.windingCount_rect_cw eta x0 x1 y0 y1 h0 h1 hx hy pt s
+
+/-- 3-D, accepted: points of the slab strictly inside the rectangle. -/
+theorem pointInPolygon_axis_rect_inside (eta : ℝ) (h0 : 0 ≤ eta) (h1 : eta < 1)
+    (k : Nat) (hk : k < 3) (neg : Bool) (c u0 u1 v0 v1 : ℝ) (hu : u0 < u1) (hv : v0 < v1)
+    (s : Nat) (rev : Bool) (p : Vec3 ℝ)
+    (hslab : |coord p k - c| ≤ eta)
+    (hin : u0 < coord p ((k + 1) % 3) ∧ coord p ((k + 1) % 3) < u1 ∧
+           v0 < coord p ((k + 2) % 3) ∧ coord p ((k + 2) % 3) < v1) :
+    pointInPolygon eta p (rect3 k c u0 u1 v0 v1 s rev) 4 (axisNormal k neg) = true :=
+  Sparrow.pointInPolygon_axis_rect_inside eta h0 h1 k hk neg c u0 u1 v0 v1 hu hv s rev p hslab hin
+
+/-- 3-D, rejected: points off the plane by more than `η`, or outside the rectangle by more than
+    `η` along one of its axes. -/
+theorem pointInPolygon_axis_rect_outside (eta : ℝ) (h0 : 0 ≤ eta) (h1 : eta < 1)
+    (k : Nat) (hk : k < 3) (neg : Bool) (c u0 u1 v0 v1 : ℝ) (hu : u0 < u1) (hv : v0 < v1)
+    (s : Nat) (rev : Bool) (p : Vec3 ℝ)
+    (hout : eta < |coord p k - c| ∨
+            coord p ((k + 1) % 3) < u0 - eta ∨ u1 + eta < coord p ((k + 1) % 3) ∨
+            coord p ((k + 2) % 3) < v0 - eta ∨ v1 + eta < coord p ((k + 2) % 3)) :
+    pointInPolygon eta p (rect3 k c u0 u1 v0 v1 s rev) 4 (axisNormal k neg) = false :=
+  Sparrow.pointInPolygon_axis_rect_outside eta h0 h1 k hk neg c u0 u1 v0 v1 hu hv s rev p hout
 
 end Sparrow.Props.C07
